@@ -15,7 +15,13 @@ G  TLC Gen_Session: every action sequence StartPage.a^k over the bounded alphabe
         the sequences starting on a context without start_page) and `-simulate` walks, each
         with the specification's state after every action; each behaviour is replayed on
         ONE real Wtp context through the public API and the projected real state is
-        compared with the specification's state after every action.
+        compared with the specification's state after every action (the replay goes on after
+        a mismatch that is only DRIFT, so that what the statement constrains is still judged
+        in the rest of the behaviour).
+        Re-announcement family (Gen_Session_R): start_page . w . producers for every word w
+        over the positioning calls (each of them also with the argument that is current
+        already, with state to clear before it) followed by one message-producing call of
+        every kind; the stamps come from the documented position `pos` of the model.
 V  seeded random long sessions (50-300 calls, wider universes, messages recorded inside
         nested templates) are recorded from the real code as event lists and validated by
         spec/Trace_Session.tla inside TLC (total verdict, failing clauses by name).
@@ -25,9 +31,13 @@ Verdict: VIOLATION only for the clauses the C16 statement constrains
   lists_emptied  a message list is not empty right after start_page
   msg_keys       a recorded message lacks the documented keys (ErrorMessageData: msg, trace,
                  title, section, subsection, called_from, path: tuple)
-  msg_title / msg_section   a message is not stamped with the current page title / section
-everything else the model predicts (subsection stamps, message text / path value / sortid,
-attribute values, cookie table, strip markers, to_return) is DRIFT.
+  msg_title / msg_section / msg_subsection   a message is not stamped with the current page
+                 title / section / subsection (the documented keys `section` and `subsection`
+                 together say in which section of the page the message was recorded; the
+                 documentation defines the current subsection: reset to None by start_page and
+                 by every start_section, set by start_subsection)
+everything else the model predicts (message text / path value / sortid, attribute values,
+cookie table, strip markers, to_return) is DRIFT.
 """
 from __future__ import annotations
 
@@ -53,13 +63,15 @@ DOCKEYS = sorted(["msg", "trace", "title", "section", "subsection", "called_from
 DEFAULT_SORTID = "XYZunsorted"
 
 # clauses of the comparison that the C16 statement itself constrains
-VIOL = ("path_restored", "lists_emptied", "msg_keys", "msg_title", "msg_section")
+VIOL = ("path_restored", "lists_emptied", "msg_keys", "msg_title", "msg_section", "msg_subsection")
 WHY = {
     "path_restored": "expand()/parse() returned but the expansion path differs from the path before the call",
     "lists_emptied": "a message list is not empty right after start_page",
     "msg_keys": "a recorded message lacks the documented keys (msg, trace, title, section, subsection, called_from, path as a tuple)",
     "msg_title": "a recorded message is not stamped with the current page title",
     "msg_section": "a recorded message is not stamped with the current section",
+    "msg_subsection": "a recorded message carries a subsection that is not the current one (documented: start_page and every "
+                      "start_section reset the subsection to None, start_subsection sets it)",
 }
 
 # ---------------------------------------------------------------------------
@@ -70,7 +82,7 @@ TEMPLATES = {"loop": "{{loop}}", "t1": "[{{{1}}}]", "t2": "{{t1|{{{1}}}}}", "pin
 SEG_TEXT = {
     "plain": "hello", "loop": "{{loop}}", "badfn": "{{#nosuchfn:x}}", "argbadfn": "{{t1|{{#nosuchfn:x}}}}",
     "argloop": "{{t2|{{loop}}}}", "pingpong": "{{ping}}", "t1a": "{{t1|a}}", "t2z": "{{t2|z}}",
-    "ifloop": "{{#if:x|{{loop}}}}", "nosuch": "{{nosuch}}", "arg1": "{{{1}}}",
+    "ifloop": "{{#if:x|{{loop}}}}", "nosuch": "{{nosuch}}", "arg1": "{{{1}}}", "toomany": "{{{1|a|b}}}",
     "p_plain": "plain", "p_pre": "a</pre>b", "p_b": "<b>x", "p_heading": "== Foo =", "p_section": "x</section>y",
     "p_t1a": "{{t1|a}}", "p_looppre": "{{loop}}</pre>",
 }
@@ -82,6 +94,7 @@ PARSE_SEGS = [s for s in SEG_TEXT if s.startswith("p_")]
 MSG_TEXT = {
     "loop": "Template loop detected: loop", "loop:ping": "Template loop detected: ping",
     "nosuchfn": "unrecognized parser function '#nosuchfn'", "pre": "unexpected </pre>",
+    "toomany": "too many args (3) in argument reference: ('1', 'a', 'b')",
     "b_unclosed": "HTML tag <b> not properly closed", "section": "unexpected </section>",
     "heading": "Heading `==`, `Foo`, `=` has an end token shorter than start token: shorten start and prepend ='s to title",
 }
@@ -298,29 +311,58 @@ def diff_step(obs, st, op, ppath):
     return f
 
 
+def stamp_detail(obs, st, op=None):
+    """The first message appended by the call whose stamps differ from the specification's."""
+    for k in KINDS:
+        for m in obs["new"][k]:
+            for key in ("title", "section", "subsection"):
+                if m[key] != st["stamp_" + key]:
+                    text = m["msg"] if op == "emit" else MSG_TEXT.get(m["msg"], m["msg"])
+                    return (f"{LISTNAME[k]} message {text!r} has {key}={m[key]!r}, "
+                            f"the current {key} is {st['stamp_' + key]!r}")
+    return None
+
+
 def replay_behaviour(ctx, hist, skip=None):
     """Replay one TLC behaviour on a real context; returns (ncalls, first failing step | None).
-    `skip`: index of an action that is NOT executed on the real side (selftest)."""
+    `skip`: index of an action that is NOT executed on the real side (selftest).
+    The replay stops at the first step that fails a clause of the statement (VIOL) or raises;
+    after a step that fails only DRIFT clauses it goes on (the real context keeps its own
+    state, the specification its own): the clauses of the statement compare what the real
+    call appended / left with the specification's state, whatever happened before.  The first
+    failing step is returned; when that one is DRIFT only and a later step fails a clause of
+    the statement, the later one is returned under "viol"."""
     prev = proj_lists(ctx)
     ppath = [nz(x) for x in ctx.expand_stack]
     n = 0
+    first = None
     for i, h in enumerate(hist):
         act = h["act"]
         op = act["op"]
         try:
             ret = None if i == skip else apply(ctx, act)
         except Exception as ex:  # a public call that raises did not "return": reported as DRIFT
-            return n, {"step": i, "clauses": ["exception"], "observed": repr(ex)[:300], "expected": h["st"], "asis_num": h.get("asis_num", 0)}
+            b = {"step": i, "clauses": ["exception"], "observed": repr(ex)[:300], "expected": h["st"], "asis_num": h.get("asis_num", 0)}
+            return n, first or b
         n += 1
         obs, cur = observe(ctx, None if op == "start_page" else prev, op, ret)
         f = diff_step(obs, h["st"], op, ppath)
         if f:
-            return n, {"step": i, "clauses": f, "observed": obs, "expected": h["st"], "asis_num": h.get("asis_num", 0)}
+            b = {"step": i, "clauses": f, "observed": obs, "expected": h["st"], "asis_num": h.get("asis_num", 0),
+                 "detail": stamp_detail(obs, h["st"], op)}
+            if first is None:
+                first = b
+                if any(c in VIOL for c in f):
+                    return n, first
+            elif any(c in VIOL for c in f):
+                first["viol"] = b
+                return n, first
         prev, ppath = cur, obs["path"]
-    return n, None
+    return n, first
 
 
 _G: dict = {}
+SEPARATOR_TITLE = "Zz (between behaviours)"
 
 
 def replay_chunk(chunk):
@@ -332,10 +374,18 @@ def replay_chunk(chunk):
     try:
         shared = new_ctx(d, "shared")
         nfresh = 0
+        before = None  # the behaviour replayed on the shared context before this one
         for idx in chunk:
             hist = cases[idx]["hist"]
+            prev_idx = None
             if hist[0]["act"]["op"] == "start_page":
                 ctx = shared
+                prev_idx, before = before, idx
+                if _G.get("separate"):
+                    # the specification's behaviour starts on a new context: its first start_page is no
+                    # re-announcement.  Keep that true on the shared context (the previous behaviour may
+                    # have ended on the same title): a page of another title in between.
+                    ctx.start_page(SEPARATOR_TITLE)
             else:
                 nfresh += 1
                 ctx = new_ctx(d, f"fresh{nfresh}")
@@ -345,7 +395,7 @@ def replay_chunk(chunk):
                 if ctx is not shared:
                     close_ctx(ctx)
                     shutil.rmtree(d / f"fresh{nfresh}", ignore_errors=True)
-            res.append({"idx": idx, "calls": n, "bad": bad})
+            res.append({"idx": idx, "calls": n, "bad": bad, "prev": None if _G.get("separate") else prev_idx})
         close_ctx(shared)
     finally:
         shutil.rmtree(d, ignore_errors=True)
@@ -369,8 +419,10 @@ def render_act(a):
     return f"{op}({de(a['a'])!r})"
 
 
-def judge(o: Outcome, case: dict, clauses, op: str):
-    """Turn the failing clauses of one step into VIOLATION / DRIFT."""
+def judge(o: Outcome, case: dict, clauses, op: str, detail=None, position=None):
+    """Turn the failing clauses of one step into VIOLATION / DRIFT.
+    detail: the offending message; position: (rendered last positioning call, it re-announced
+    the current value) - both only make the report more precise."""
     if clauses == ["exception"]:
         # the statement speaks about calls that return; the model predicts that these calls do
         o.note_drift({"after": op, "clauses": ["exception"], "raised": case.get("observed"), "case": _brief(case)})
@@ -378,9 +430,25 @@ def judge(o: Outcome, case: dict, clauses, op: str):
     viol = [c for c in clauses if c in VIOL]
     drift = [c for c in clauses if c not in VIOL]
     if viol:
-        o.violation(case, f"after {op}: " + "; ".join(WHY[c] for c in viol) + f" [clauses: {', '.join(clauses)}]", cls=viol[0])
+        why = f"after {op}: " + "; ".join(WHY[c] for c in viol)
+        cls = viol[0]
+        if detail and any(c.startswith("msg_") for c in viol):
+            why += ": " + detail
+        if position and (any(c.startswith("msg_") for c in viol) or position[1]):
+            why += f"; the position was last announced by {position[0]}" + (
+                " - a call whose argument was the current value already (re-announcement), which has to reset what any other call of it resets" if position[1] else "")
+            cls += "/" + position[0].split("(")[0] + ("-same" if position[1] else "")
+        o.violation(case, why + f" [clauses: {', '.join(clauses)}]", cls=cls)
     elif drift:
         o.note_drift({"after": op, "clauses": drift, "case": _brief(case)})
+
+
+def last_position(hist, step):
+    """(rendered call, same) of the last start_* call up to `step` (same: flagged by TLC)."""
+    for h in reversed(hist[: step + 1]):
+        if h["act"]["op"] in ("start_page", "start_section", "start_subsection"):
+            return render_act(h["act"]), bool(h.get("same"))
+    return None
 
 
 def _brief(case):
@@ -391,6 +459,7 @@ def _brief(case):
 
 def run_g(o: Outcome, name: str, cases: list, nproc=None):
     _G["cases"] = cases
+    _G["separate"] = name == "reannounce"
     started = [i for i, c in enumerate(cases) if c["hist"][0]["act"]["op"] == "start_page"]
     fresh = [i for i, c in enumerate(cases) if c["hist"][0]["act"]["op"] != "start_page"]
     res = pmap(replay_chunk, started + fresh, nproc=nproc)
@@ -405,9 +474,16 @@ def run_g(o: Outcome, name: str, cases: list, nproc=None):
         if b:
             nb += 1
             acts = acts_of(hist)
-            case = {"kind": "G", "gen": name, "acts": acts, "calls": [render_act(a) for a in acts[: b["step"] + 1]],
-                    "step": b["step"], "clauses": b["clauses"], "observed": b["observed"], "expected": b["expected"]}
-            judge(o, case, b["clauses"], render_act(acts[b["step"]]))
+            for x in (b, b.get("viol")):
+                if not x:
+                    continue
+                case = {"kind": "G", "gen": name, "acts": acts, "calls": [render_act(a) for a in acts[: x["step"] + 1]],
+                        "step": x["step"], "clauses": x["clauses"], "observed": x["observed"], "expected": x["expected"]}
+                if r.get("prev") is not None:
+                    # same real context as the behaviour replayed before (start_page is what separates them)
+                    case["acts_before"] = acts_of(cases[r["prev"]]["hist"])
+                    case["calls_before_on_this_context"] = [render_act(a) for a in case["acts_before"]]
+                judge(o, case, x["clauses"], render_act(acts[x["step"]]), x.get("detail"), last_position(hist, x["step"]))
     return nb
 
 
@@ -425,7 +501,17 @@ V_NODES = ["nowiki", "nowiki", "h", "ref", "math"]
 V_CONTENTS = ["", "c1", "c2", "==H==", "é", "c:c1"]
 
 
-def random_act(rng, started: bool):
+def random_act(rng, started: bool, cur=None):
+    """cur: the arguments of the positioning calls issued last (title, section, subsection;
+    section / subsection forgotten at the calls documented to reset them) - only used to
+    issue re-announcements: a positioning call repeated with the argument that is current."""
+    if cur and started and rng.random() < 0.09:
+        q = rng.random()
+        if q < 0.2:
+            return mk_act("start_page", cur["title"])
+        if q < 0.7:
+            return mk_act("start_section", nz(cur["section"]))
+        return mk_act("start_subsection", nz(cur["subsection"]))
     r = rng.random()
     if not started and r < 0.45 or r < 0.07:
         return mk_act("start_page", rng.choice(V_TITLES))
@@ -454,8 +540,15 @@ def record_session(rng, d: Path, sid: int, ncalls: int):
         obs, prev = observe(ctx, None, "reset", None)
         events.append({**mk_act("reset"), "sid": sid, "obs": obs})
         started = False
+        cur = {"title": None, "section": None, "subsection": None}
         for _ in range(ncalls):
-            act = random_act(rng, started)
+            act = random_act(rng, started, cur)
+            if act["op"] == "start_page":
+                cur = {"title": act["a"], "section": None, "subsection": None}
+            elif act["op"] == "start_section":
+                cur.update(section=de(act["a"]), subsection=None)
+            elif act["op"] == "start_subsection":
+                cur["subsection"] = de(act["a"])
             try:
                 ret = apply(ctx, act)
             except Exception as ex:  # the session ends here; reported as DRIFT by run_v
@@ -475,7 +568,8 @@ TRACE_CFG = "SPECIFICATION TSpec\nINVARIANT Verdict\nINVARIANT ModelInv\nPOSTCON
 
 
 def validate_trace(events, timeout=1200):
-    """-> (TLCResult, bad list) ; bad = [{i, sid, op, clauses, expected(json)}]"""
+    """-> (TLCResult, bad list) ; bad = [{i, sid, op, clauses, expected(json)}]
+    (r.re: the re-announcements TLC counted while consuming the trace)"""
     with Scratch("c16s-t-") as d:
         tf = d / "trace.json"
         tf.write_text(json.dumps({"events": events}))
@@ -486,6 +580,7 @@ def validate_trace(events, timeout=1200):
     v = v[0]
     if v["consumed"] != len(events):
         raise common.TLCError(f"trace consumed {v['consumed']} of {len(events)} events")
+    r.re = {k: x for k, x in v.get("re", {}).items() if k != "lastsame"}
     return r, v["bad"]
 
 
@@ -514,7 +609,7 @@ def v_chunk(jobs):
     shapes = {(e["op"], e["a"], common.json_key(e["nw"])) for e in events if e["op"] in ("expand", "parse")}
     shapes |= {(e["op"], e["a"], e["obs"]["section"], e["obs"]["subsection"]) for e in events if e["op"] == "emit"}
     out.append({"nevents": len(events), "nsessions": len(jobs), "firsts": firsts, "distinct": r.distinct, "generated": r.generated,
-                "wall": r.wall, "depth": r.depth, "shapes": sorted(shapes), "raised": raised,
+                "wall": r.wall, "depth": r.depth, "shapes": sorted(shapes), "raised": raised, "re": r.re,
                 "nested": sum(1 for e in events for k in KINDS for m in e["obs"]["new"][k] if len(m["path"]) > 2 and e["op"] != "reset" and e["op"] != "start_page"),
                 "sample": [{k: e[k] for k in ("op", "a", "b", "nw")} for e in events[1:7]]})
     return out
@@ -536,8 +631,11 @@ def run_v(o: Outcome, nsessions: int, per_chunk: int, nproc=None):
     res = pmap(v_worker, chunks, nproc=nproc, chunk=1)
     tot_ev = 0
     seen_cls = set()
+    re_tot: dict = {}
     for k, r in enumerate(res):
         tot_ev += r["nevents"]
+        for n, x in r["re"].items():
+            re_tot[n] = re_tot.get(n, 0) + x
         o.traces += r["nsessions"]
         o.evaluations += r["nevents"]
         o.add_tlc(f"Trace_Session[{k}]", _R(r["distinct"], r["generated"], r["depth"], r["wall"]))
@@ -550,13 +648,29 @@ def run_v(o: Outcome, nsessions: int, per_chunk: int, nproc=None):
             case = {"kind": "V", "calls": [render_act(e) for e in b["events"][1:]][-12:], "clauses": b["clauses"],
                     "observed": ev["obs"], "expected": json.loads(b["expected"]), "events": [{k2: e[k2] for k2 in ("op", "a", "b", "c", "d", "nw")} for e in b["events"]]}
             if b["clause"] in VIOL:
-                o.violation(case, f"after {render_act(ev) if ev['op'] != 'reset' else 'Wtp()'}: {WHY[b['clause']]} [clauses: {', '.join(b['clauses'])}]", cls=b["clause"])
+                why, cls = WHY[b["clause"]], b["clause"]
+                if cls.startswith("msg_"):
+                    det = stamp_detail(ev["obs"], case["expected"], ev["op"])
+                    pos_ev = next((e for e in reversed(b["events"]) if e["op"] in ("start_page", "start_section", "start_subsection")), None)
+                    if det:
+                        why += ": " + det
+                    if pos_ev:
+                        same = bool(case["expected"].get("same"))
+                        why += f"; the position was last announced by {render_act(pos_ev)}" + (
+                            " - a call whose argument was the current value already (re-announcement), which has to reset what any other call of it resets" if same else "")
+                        cls += "/" + pos_ev["op"] + ("-same" if same else "")
+                o.violation(case, f"after {render_act(ev) if ev['op'] != 'reset' else 'Wtp()'}: {why} [clauses: {', '.join(b['clauses'])}]", cls=cls)
             else:
                 key = (b["clause"], ev["op"], ev["a"])
                 if key not in seen_cls:
                     seen_cls.add(key)
                     o.note_drift({"after": render_act(ev) if ev["op"] != "reset" else "Wtp()", "clauses": [b["clause"]], "case": _brief(case)})
     o.extra["session_trace_events"] = o.extra.get("session_trace_events", 0) + tot_ev
+    # counted by Trace_Session on the specification's state: start_page(T) on page T (page_dirty: with messages /
+    # section / cookies to clear), start_section(S) in section S (section_sub: with a subsection to clear), ...
+    o.extra["session_trace_reannouncements"] = re_tot
+    if res and not (re_tot.get("section_sub") and re_tot.get("page_dirty") and re_tot.get("subsection")):
+        raise common.TLCError(f"the recorded sessions contain no re-announcement of some kind (vacuity): {re_tot}")
     o.extra["session_messages_recorded_inside_nested_paths"] = sum(r["nested"] for r in res)
     if res:
         o.sample({"recorded_session_prefix": res[0]["sample"]})
@@ -579,6 +693,8 @@ CONSTANTS
   MaxMarkers = 0
   MaxLen = %d
   FreshLen = 0
+  Family = "seq"
+  PosLen = 0
   SimMode = FALSE
 INVARIANT GenInv
 CHECK_DEADLOCK FALSE
@@ -640,6 +756,10 @@ DEMOS = [
     ("Demo_Session_warning_section.cfg", "StampsTitleSection"),
     ("Demo_Session_cookie_dup.cfg", "CookieInjective"),
     ("Demo_Session_strip_keys.cfg", "StripSameContentSameNumber"),
+    # re-announcement shortcuts: "the argument is the current value already, nothing to do"
+    ("Demo_Session_same_section.cfg", "StampsSubsection"),
+    ("Demo_Session_same_page.cfg", "CleanAfterStartPage"),
+    ("Demo_Session_sub_like_section.cfg", "StampsSubsection"),
 ]
 
 
@@ -650,7 +770,9 @@ def extend(o: Outcome, tier: str) -> None:
     common.use_repo()
     o.rule = (o.rule + " || " if o.rule else "") + (
         "session engine: G = every action sequence StartPage.a^k (k=2 quick / 3 thorough) over the bounded alphabet of spec/Gen_Session "
-        "(+ sequences on a context without start_page, + -simulate walks of 14 calls), one case per behaviour, distinct by action sequence, "
+        "(+ sequences on a context without start_page, + -simulate walks of 14 calls, + re-announcement family: start_page . w . producers for every "
+        "word w of 3 quick / 4 thorough positioning calls [start_page/start_section/start_subsection over all titles/sections/subsections, i.e. also "
+        "with the argument that is current already, + a mark call] followed by one message-producing call of every kind), one case per behaviour, distinct by action sequence, "
         "non-trivial when it contains a call other than start_page/to_return; V = seeded random sessions of 50-300 calls, distinct by "
         "(op, text) of expand/parse events and (kind, section, subsection) of emitted messages")
     o.assumptions += ["session engine: scripts (push/pop/save/emit order) of the canonical texts in spec/Session.tla are transcribed from core.py/parser.py; "
@@ -662,14 +784,15 @@ def extend(o: Outcome, tier: str) -> None:
         mcw = 8 if thorough else 4
         f_msgs = ex.submit(tlc, "MC_Session", "MC_Session_msgs_T.cfg" if thorough else "MC_Session_msgs.cfg", workers=mcw, timeout=1500, coverage=True)
         f_tabs = ex.submit(tlc, "MC_Session", "MC_Session_tables_T.cfg" if thorough else "MC_Session_tables.cfg", workers=mcw, timeout=1500, coverage=True)
-        demos = DEMOS if thorough else [x for x in DEMOS if x[0] != "Demo_Session_cookie_dup.cfg"]
+        demos = DEMOS if thorough else [x for x in DEMOS if x[0] not in ("Demo_Session_cookie_dup.cfg", "Demo_Session_sub_like_section.cfg")]
         f_demo = {cfg: ex.submit(tlc, "MC_Session", cfg, workers=1, timeout=600, check=False) for cfg, _ in demos}
         f_gen = ex.submit(tlc, "Gen_Session", "Gen_Session_T.cfg" if thorough else "Gen_Session_Q.cfg", workers=1, timeout=1500)
         f_sim = ex.submit(_sim, 400 if thorough else 40, 14, common.seed() + 16)
+        f_rgen = ex.submit(tlc, "Gen_Session", "Gen_Session_RT.cfg" if thorough else "Gen_Session_R.cfg", workers=1, timeout=1500)
         f_strip = ex.submit(tlc, "Gen_Session", "strip.cfg", workers=1, timeout=600, cfg_text=STRIP_GEN_CFG % (5 if thorough else 3))
         if not thorough:
             run_v(o, 10, 10, nproc=1)
-        futures = [f_msgs, f_tabs, f_gen, f_sim, f_strip] + list(f_demo.values())
+        futures = [f_msgs, f_tabs, f_gen, f_sim, f_rgen, f_strip] + list(f_demo.values())
         cf.wait(futures)
     for f in futures:
         f.result()  # machinery failures surface here
@@ -692,7 +815,32 @@ def extend(o: Outcome, tier: str) -> None:
         raise common.TLCError("Sim_Session printed no walk")
     bad_s = run_g(o, "simulate", sims, nproc=np_)
     o.sample({"simulated_walk": [render_act(a) for a in acts_of(sims[0]["hist"])]})
-    o.extra["session_behaviours"] = {"exhaustive": len(cases), "simulated": len(sims), "mismatching": bad_g + bad_s}
+    # ---- G, re-announcement family
+    r = f_rgen.result()
+    o.add_tlc("Gen_Session[reannounce]", r)
+    rcases = r.cases
+    if not rcases:
+        raise common.TLCError("Gen_Session (re-announcement family) printed no behaviour")
+    bad_r = run_g(o, "reannounce", rcases, nproc=np_)
+    # how many behaviours re-announce (flag `same`, set by TLC) a page / section / subsection, and how many
+    # re-announce a section while a subsection is set (expected subsection stamp '' afterwards)
+    rstat = {"start_page": 0, "start_section": 0, "start_subsection": 0, "start_section_with_subsection_to_clear": 0}
+    for c in rcases:
+        ops = set()
+        for i, h in enumerate(c["hist"]):
+            if h.get("same"):
+                ops.add(h["act"]["op"])
+                if h["act"]["op"] == "start_section" and i and c["hist"][i - 1]["st"]["subsection"] != NONE:
+                    ops.add("start_section_with_subsection_to_clear")
+        for x in ops:
+            rstat[x] += 1
+    if not all(rstat.values()):
+        raise common.TLCError(f"re-announcement family without re-announcements of some kind (vacuity): {rstat}")
+    o.extra["session_reannouncement_behaviours"] = {"behaviours": len(rcases), "with_same": rstat, "producers_after_each_word":
+                                                    [render_act(h["act"]) for h in rcases[0]["hist"] if h["act"]["op"] in ("emit", "expand", "parse")][-10:]}
+    mid = rcases[len(rcases) // 2]
+    o.sample({"reannouncement_behaviour": [render_act(a) for a in acts_of(mid["hist"])][:5], "stamps_after_word": {k: mid["hist"][4]["st"][k] for k in ("stamp_title", "stamp_section", "stamp_subsection")} if len(mid["hist"]) > 4 else None})
+    o.extra["session_behaviours"] = {"exhaustive": len(cases), "simulated": len(sims), "reannounce": len(rcases), "mismatching": bad_g + bad_s + bad_r}
     r = f_strip.result()
     o.add_tlc("Gen_Session[strip keys]", r)
     strip_probe(o, r)
@@ -754,7 +902,11 @@ def replay(path: str) -> int:
     with Scratch("c16s-r-") as d:
         if case["kind"] == "G":
             hist = [{"act": a, "st": None} for a in case["acts"]]
-            r = tlc("Gen_Session", "Gen_Session_T.cfg" if len(hist) > 3 else "Gen_Session_Q.cfg", workers=1, timeout=1500) if case.get("gen") == "exhaustive" else None
+            r = None
+            if case.get("gen") == "exhaustive":
+                r = tlc("Gen_Session", "Gen_Session_T.cfg" if len(hist) > 3 else "Gen_Session_Q.cfg", workers=1, timeout=1500)
+            elif case.get("gen") == "reannounce":
+                r = tlc("Gen_Session", "Gen_Session_RT.cfg" if len(hist) > 15 else "Gen_Session_R.cfg", workers=1, timeout=1500)
             found = None
             if r is not None:
                 key = common.json_key(case["acts"])
@@ -765,6 +917,8 @@ def replay(path: str) -> int:
             if found is None:  # a simulated walk: compare the failing step with the recorded expectation
                 ctx = new_ctx(d, "r")
                 try:
+                    for a in case.get("acts_before", []):
+                        apply(ctx, a)
                     prev, ppath = proj_lists(ctx), []
                     for i, a in enumerate(case["acts"][: case["step"] + 1]):
                         ret = apply(ctx, a)
@@ -779,12 +933,16 @@ def replay(path: str) -> int:
                 return 0
             ctx = new_ctx(d, "r")
             try:
+                for a in case.get("acts_before", []):
+                    apply(ctx, a)
+                if case.get("gen") == "reannounce":
+                    ctx.start_page(SEPARATOR_TITLE)
                 n, bad = replay_behaviour(ctx, found)
             finally:
                 close_ctx(ctx)
             print("calls:", [render_act(a) for a in case["acts"]])
-            print("failing now:", bad and {"step": bad["step"], "clauses": bad["clauses"]})
-            return 1 if bad and any(c in VIOL for c in bad["clauses"]) else 0
+            print("failing now:", bad and [{"step": x["step"], "clauses": x["clauses"], "detail": x.get("detail")} for x in (bad, bad.get("viol")) if x])
+            return 1 if bad and any(c in VIOL for x in (bad, bad.get("viol")) if x for c in x["clauses"]) else 0
         # V: re-execute the recorded calls on a new context and validate again
         ctx = new_ctx(d, "r")
         events = []
@@ -806,7 +964,9 @@ def replay(path: str) -> int:
 def selftest() -> int:
     """Binding demo: (a) a recorded trace is accepted, the same trace with ONE corrupted
     recorded field is rejected with the clause named; (b) a TLC behaviour replays without
-    mismatch, the same behaviour with ONE action dropped on the real side mismatches."""
+    mismatch, the same behaviour with ONE action dropped on the real side mismatches; (c) a
+    behaviour of the re-announcement family replays without mismatch, with the re-announcing
+    start_section not executed the stale subsection stamp of the next message is rejected."""
     common.use_repo()
     ok = True
     with Scratch("c16s-s-") as d:
@@ -821,6 +981,13 @@ def selftest() -> int:
     _, bad1 = validate_trace(ev2)
     print(f"    message section corrupted in event {k + 1}: bad = {[(b['i'], b['clauses']) for b in bad1]}")
     ok &= len(bad1) == 1 and bad1[0]["i"] == k + 1 and bad1[0]["clauses"] == ["msg_section"]
+    k = next(i for i, e in enumerate(events) if e["op"] in ("expand", "emit", "parse") and any(e["obs"]["new"][q] for q in KINDS) and e["obs"]["subsection"] not in (NONE, ""))
+    ev2 = copy.deepcopy(events)
+    q = next(q for q in KINDS if ev2[k]["obs"]["new"][q])
+    ev2[k]["obs"]["new"][q][0]["subsection"] = ""
+    _, bad1 = validate_trace(ev2)
+    print(f"    message subsection blanked in event {k + 1}: bad = {[(b['i'], b['clauses']) for b in bad1]}")
+    ok &= len(bad1) == 1 and bad1[0]["i"] == k + 1 and bad1[0]["clauses"] == ["msg_subsection"]
     k = next(i for i, e in enumerate(events) if e["op"] == "expand")
     ev3 = copy.deepcopy(events)
     ev3[k]["obs"]["path"].append("Template:leaked")
@@ -847,5 +1014,20 @@ def selftest() -> int:
     print(f"(b) behaviour {[render_act(a) for a in acts_of(hist)]}: faithful replay mismatch = {b0}; "
           f"replay without the 2nd call: step {b1 and b1['step']} clauses {b1 and b1['clauses']}")
     ok &= b0 is None and b1 is not None and "section" in b1["clauses"]
+    # (c) re-announcement family: start_section(S) ; start_subsection(U) ; start_section(S) [flagged `same` by TLC]
+    r = tlc("Gen_Session", "Gen_Session_R.cfg", workers=1, timeout=600)
+    hist = next(c["hist"] for c in r.cases
+                if [(h["act"]["op"], h["act"]["a"]) for h in c["hist"][1:4]] == [("start_section", "S1"), ("start_subsection", "U1"), ("start_section", "S1")])
+    with Scratch("c16s-s-") as d:
+        ctx = new_ctx(d, "x")
+        try:
+            _, c0 = replay_behaviour(ctx, hist)
+            _, c1 = replay_behaviour(ctx, hist, skip=3)
+        finally:
+            close_ctx(ctx)
+    v = c1 and c1.get("viol")
+    print(f"(c) behaviour {[render_act(a) for a in acts_of(hist)][:5]}.. (same = {[h['same'] for h in hist[:4]]}): faithful replay mismatch = {c0}; "
+          f"re-announcing call not executed: step {c1 and c1['step']} {c1 and c1['clauses']} (DRIFT), then step {v and v['step']} {v and v['clauses']}: {v and v['detail']}")
+    ok &= c0 is None and hist[3]["same"] and c1 is not None and c1["clauses"] == ["subsection"] and bool(v) and v["step"] == 4 and "msg_subsection" in v["clauses"]
     print("selftest", "ok" if ok else "FAILED")
     return 0 if ok else 1
